@@ -90,7 +90,7 @@ type run struct {
 	nAcc        int
 
 	prunesAfterChange, rollbacks, bufferedPrunes, verifiedConcurrent int
-	rollbackWhileBlocked                                             bool
+	rollbackWhileBlocked, recreatedInBlock                           bool
 }
 
 func (r *run) open(root []byte) bool {
@@ -208,6 +208,7 @@ func (r *run) applyMutations(st *simkit.Step, m model, bumpNonce bool) bool {
 	if bumpNonce {
 		muts = append(muts, 7, mNonce, 0) // account 7 is a pure counter: never removed, so no state root value recurs
 	}
+	removedHere := map[int]bool{}
 	for j := 0; j+2 < len(muts); j += 3 {
 		ai, kind, arg := int(muts[j]), muts[j+1], muts[j+2]
 		a := addr(ai)
@@ -220,7 +221,11 @@ func (r *run) applyMutations(st *simkit.Step, m model, bumpNonce bool) bool {
 				return false
 			}
 			delete(m, ai)
+			removedHere[ai] = true
 			continue
+		}
+		if removedHere[ai] {
+			r.recreatedInBlock = true // removed and created again inside one block
 		}
 		acc, err := adb.LoadAccount(a)
 		if err != nil {
@@ -559,7 +564,13 @@ func (r *run) checkLive() {
 			if i == len(r.blocks)-1 {
 				what = "current head"
 			}
-			r.c.Violate("C09", r.kind(), "trie disk", "root %x of block #%d (%s) is not retrievable after step %d %s: %v", b.root, i, what, r.c.CurStep, stepName(r.c), err)
+			site := "trie disk"
+			if r.rollbackWhileBlocked {
+				// a rollback issued while pruning was blocked leaves a buffered cancel for the parent root; when a new
+				// block is committed on that parent, the late cancel evicts the NEW block's old-hashes entry
+				site = "after-rollback-while-pruning-blocked"
+			}
+			r.c.Violate("C09", r.kind(), site, "root %x of block #%d (%s) is not retrievable after step %d %s: %v", b.root, i, what, r.c.CurStep, stepName(r.c), err)
 			return
 		}
 	}
@@ -628,7 +639,8 @@ func (r *run) finalGarbageCheck() {
 		}
 		garbage++
 		if example == "" {
-			example = fmt.Sprintf("%x", k)
+			raw, _ := r.disk.RawGet([]byte(k))
+			example = fmt.Sprintf("%x = %s", k, triekit.DescribeNode(raw))
 		}
 	}
 	if garbage > 0 {
@@ -709,6 +721,11 @@ func (r *run) drain() {
 func garbageSite(r *run) string {
 	if r.rollbackWhileBlocked {
 		return "rollback-while-pruning-blocked"
+	}
+	if r.recreatedInBlock {
+		// the held data trie of the address is replaced by the new incarnation's trie: the obsolete hashes the first
+		// one had collected in this block never reach the waiting list
+		return "account-removed-and-recreated-in-one-block"
 	}
 	return "trie-disk"
 }
